@@ -15,6 +15,7 @@ From NR Require Import Lib.Base.
 Open Scope list_scope. Open Scope nat_scope.
 
 Definition IDLEN : nat := 32.
+Arguments IDLEN : simpl never.
 
 (* ---------- the framed reader ---------- *)
 (* the loop `while True: data = await reader.readexactly(32); handle(data)` run until
